@@ -963,6 +963,12 @@ func (r *multiCIDRRangeAllocator) allocateCIDR(clusterCIDR *cidrset.ClusterCIDR,
 			continue
 		}
 
+		// Nodes may hold pod CIDRs that are not accounted for in any cidrSet, e.g. because the
+		// ClusterCIDR covering them was created after the node, or does not select the node.
+		if r.cidrInUseByNode(candidate) {
+			continue
+		}
+
 		// Mark the CIDR as occupied in the map.
 		if err := r.Occupy(clusterCIDR, candidate); err != nil {
 			return nil, err
@@ -1001,6 +1007,26 @@ func (r *multiCIDRRangeAllocator) cidrOverlapWithAllocatedList(cidr *net.IPNet) 
 						return true
 					}
 				}
+			}
+		}
+	}
+	return false
+}
+
+// cidrInUseByNode reports whether the CIDR overlaps a pod CIDR of any node in the node cache.
+func (r *multiCIDRRangeAllocator) cidrInUseByNode(cidr *net.IPNet) bool {
+	nodes, err := r.nodeLister.List(labels.Everything())
+	if err != nil {
+		return false
+	}
+	for _, node := range nodes {
+		for _, nodeCIDR := range node.Spec.PodCIDRs {
+			_, podCIDR, err := netutil.ParseCIDRSloppy(nodeCIDR)
+			if err != nil {
+				continue
+			}
+			if cidr.Contains(podCIDR.IP.Mask(cidr.Mask)) || podCIDR.Contains(cidr.IP.Mask(podCIDR.Mask)) {
+				return true
 			}
 		}
 	}
